@@ -35,9 +35,6 @@ func zzTwoTokens(env *ZZEnv) (types.ChainID, string, string) {
 	if vrt.Choose("chain", 2) == 0 {
 		chain = "minter"
 		hi := 2
-		if vrt.Thorough() {
-			hi = 3
-		}
 		idA, idB = zzDigitStr("idA", 1, hi), zzDigitStr("idB", 1, hi)
 		vrt.Assume(idA != idB)
 	} else {
@@ -129,6 +126,12 @@ func ZZ_C10_BuildBatch() {
 		vrt.Assert("c10.nonempty[no unbatched transfer of the token]", b == nil || len(b.Transactions) >= 1)
 	}
 	if b == nil {
+		// no batch was created: then no nonce or sequence number may have been consumed (gap-free numbering)
+		vrt.Assert("c10.no-batch-consumes-no-number", k.getLastOutgoingBatchNonce(ctx, chain) == nonce0 && k.getOutgoingSequence(ctx, chain) == seq0)
+		b2 := k.BuildBatchTx(ctx, chain, idB, capN)
+		if b2 != nil {
+			vrt.Assert("c10.nonce.after-empty-request", b2.BatchNonce == nonce0+1 && b2.Sequence == seq0+1)
+		}
 		return
 	}
 	vrt.Assert("c10.cap", len(b.Transactions) <= capN)
